@@ -125,7 +125,7 @@ def _mk_embed():
             cls.__name__ = 'Embed%d_%s' % (n, nm)
             cls.__qualname__ = cls.__name__
             cls.__module__ = __name__
-            cls.uf_congruence = (nm == 'vector_terms')
+            cls.uf_congruence = False      # arguments of psi are identified by the exact normaliser
             globals()[cls.__name__] = cls
 
 
@@ -136,7 +136,7 @@ class AxisPermutation(_Embed):
     """Cartesian grids: swapping two axes (faces, coefficient components, field transposed) permutes every term"""
     name = 'permutation/swap_first_two_axes'
     grids = ('Grid2D', 'Grid3D')
-    uf_congruence = True
+    uf_congruence = False
 
     def setup(self, w):
         nd = w.nd
